@@ -709,23 +709,137 @@ pub fn erased() -> crate::fuzz::Erased {
   crate::fuzz::Erased::generic("C03", "align", move || strategy(opts), move |c, st| interpret(corpus, opts, c, st), check)
 }
 
+// ---------------------------------------------------------------------------------------
+// lists: a `$$$A` in an argument list / array, with and without a separator written after it.
+// When the pattern is reported to match, the ellipses together hold exactly the named elements
+// that the literal prefix does not account for: none is left out, none is held twice.
+
+#[derive(Clone, Debug, Serialize, Deserialize)]
+pub struct ListCase {
+  pub lang: String,
+  pub source: String,
+  pub pattern: String,
+  pub strictness: String,
+  /// number of leading elements the pattern spells out
+  pub prefix: usize,
+  pub two_ellipses: bool,
+}
+
+pub fn list_strategy() -> BoxedStrategy<(u8, Vec<u8>, u8, u8, u8, bool)> {
+  (0u8..3, prop::collection::vec(0u8..6, 0..5), 0u8..4, 0u8..5, 0u8..5, any::<bool>()).boxed()
+}
+
+pub fn interpret_list(ch: &(u8, Vec<u8>, u8, u8, u8, bool), _st: &mut Stats) -> Option<ListCase> {
+  let (lang, args, form, strict, prefix, code_trailing_comma) = ch;
+  let lang = [SupportLang::JavaScript, SupportLang::TypeScript, SupportLang::Python][*lang as usize % 3];
+  let pool = ["a", "b", "1", "g(x)", "\"s\"", "c"];
+  let items: Vec<&str> = args.iter().map(|a| pool[*a as usize % pool.len()]).collect();
+  let k = (*prefix as usize).min(items.len());
+  let (open, close) = if *form == 2 { ("[", "]") } else { ("f(", ")") };
+  let tail = if *code_trailing_comma && !items.is_empty() { "," } else { "" };
+  let source = format!("{open}{}{tail}{close}\n", items.join(", "));
+  let lead = items[..k].iter().map(|x| format!("{x}, ")).collect::<String>();
+  let (pattern, two) = match form {
+    0 | 2 => (format!("{open}{lead}$$$A, {close}"), false),
+    1 => (format!("{open}{lead}$$$A{close}"), false),
+    _ => (format!("{open}{lead}$$$A, $$$B{close}"), true),
+  };
+  Some(ListCase {
+    lang: langs::name(lang),
+    source,
+    pattern,
+    strictness: STRICTNESS[*strict as usize % STRICTNESS.len()].to_string(),
+    prefix: k,
+    two_ellipses: two,
+  })
+}
+
+pub fn check_list(case: &ListCase, st: &mut Stats) -> CheckResult {
+  let lang: SupportLang = case.lang.parse().map_err(|_| Fail::new("bad-case", "lang"))?;
+  let sg = parse(lang, &case.source);
+  if tsutil::subtree_has_error(&sg.root().get_ts_node()) {
+    st.discard("generated list does not parse");
+    return Ok(());
+  }
+  let Ok(p) = catch(|| Pattern::try_new(&case.pattern, lang)) else {
+    fail!("C03:panic:pattern", "panic while building the pattern {:?}", case.pattern);
+  };
+  let Ok(p) = p else {
+    st.discard("pattern does not parse");
+    return Ok(());
+  };
+  let p = p.with_strictness(pat::strictness(&case.strictness));
+  st.eval();
+  let is_list = |n: &TsNode| matches!(n.kind().as_ref(), "arguments" | "argument_list" | "array" | "list");
+  let mut reported = 0;
+  for n in tsutil::preorder(sg.root().get_ts_node()) {
+    let m = match catch(|| p.match_node(sg.inner.adopt(n.clone()))) {
+      Ok(m) => m,
+      Err(e) => fail!(panic_signature(&e), "panic while matching {:?} ({}) against {:?}: {e}", case.pattern, case.strictness, case.source),
+    };
+    let Some(m) = m else { continue };
+    // the list of the matched node: the node itself (array) or its argument list
+    let list = if is_list(&n) { Some(n.clone()) } else { (0..n.child_count()).filter_map(|i| n.child(i as u32)).find(|c| is_list(c)) };
+    let Some(list) = list else { continue };
+    let elements: Vec<(usize, usize)> = (0..list.child_count())
+      .filter_map(|i| list.child(i as u32))
+      .filter(|c| c.is_named() && !tsutil::is_comment_kind(&c.kind()))
+      .map(|c| (c.start_byte() as usize, c.end_byte() as usize))
+      .collect();
+    reported += 1;
+    let env = m.get_env();
+    let named = |v: &str| -> Vec<(usize, usize)> {
+      env.get_multiple_matches(v).iter().filter(|b| b.is_named()).map(|b| (b.range().start, b.range().end)).collect()
+    };
+    let mut held = named("A");
+    if case.two_ellipses {
+      held.extend(named("B"));
+    }
+    let want: Vec<(usize, usize)> = elements.iter().skip(case.prefix).cloned().collect();
+    if held != want {
+      fail!(
+        "C03:list-ellipsis-binding",
+        "pattern {:?} ({}) is reported to match {:?}, the ellipses hold the named elements {:?} but the elements after the {} spelled-out one(s) are {:?}",
+        case.pattern,
+        case.strictness,
+        case.source,
+        held.iter().map(|(s, e)| &case.source[*s..*e]).collect::<Vec<_>>(),
+        case.prefix,
+        want.iter().map(|(s, e)| &case.source[*s..*e]).collect::<Vec<_>>()
+      );
+    }
+  }
+  if reported > 0 {
+    st.label("list_match_reported");
+    st.nontrivial(&(&case.lang, &case.source, &case.pattern, &case.strictness));
+  }
+  Ok(())
+}
+
 pub fn run(cfg: &RunCfg) -> i32 {
   let mut report = Report::new(
     cfg,
-    "case = (language, pattern cut from a node with up to 3 descendants (named or unnamed) replaced by $V/$$V/$_/$$$/$$$W, candidate = origin | other node of the pattern's root kind | copy of the origin mutated inside its span (child deleted/duplicated/swapped/spliced, comment or separator inserted, bytes removed)), evaluated at all 5 strictness levels (evaluations counts (pattern, candidate, strictness) triples). Non-trivial = distinct (pattern, candidate) where the candidate is not the origin and root kinds agree.",
+    "case = (language, pattern cut from a node with up to 3 descendants (named or unnamed) replaced by $V/$$V/$_/$$$/$$$W, candidate = origin | other node of the pattern's root kind | copy of the origin mutated inside its span (child deleted/duplicated/swapped/spliced, comment or separator inserted, bytes removed)), evaluated at all 5 strictness levels (evaluations counts (pattern, candidate, strictness) triples). Stage lists: argument lists / arrays of 0-4 elements (JavaScript, TypeScript, Python) against `f(<k elements>, $$$A, )`, `f(.., $$$A)`, `[.., $$$A, ]` and `f(.., $$$A, $$$B)` at every strictness: whenever a match is reported, the ellipses hold exactly the named elements after the k spelled-out ones. Non-trivial = distinct (pattern, candidate) where the candidate is not the origin and root kinds agree.",
   );
   report.assume("O-align is existential and at least as permissive as the documentation and the repository's documented tests (separator after an ellipsis); only soundness (reported match => legal alignment) is asserted");
   report.assume("unnamed pattern terminals are compared by kind only (the documented tree-sitter-typescript work-around)");
   let known = Known::load(&cfg.prop);
   if let Some(path) = &cfg.replay {
+    if read_replay(path).stage == "lists" {
+      return crate::replay_main::<ListCase>(cfg, path, check_list);
+    }
     return crate::replay_main::<Case>(cfg, path, check);
   }
   let corpus = Corpus::load();
-  crate::replay_known::<Case>(&mut report, &known, check);
+  crate::replay_known_staged::<Case>(&mut report, &known, "lists", false, check);
+  crate::replay_known_staged::<ListCase>(&mut report, &known, "lists", true, check_list);
   let opts = stage_opts();
   let total = cfg.budget(30_000, 600_000);
   let o = drive(cfg, "align", total, &known, || strategy(&opts), |c, st| interpret(&corpus, &opts, c, st), check);
   report.absorb("align", o);
+  let total = cfg.budget(6_000, 60_000);
+  let o = drive(cfg, "lists", total, &known, list_strategy, interpret_list, check_list);
+  report.absorb("lists", o);
   report.floor("near_miss_root_kind_agrees", 0.06, "evaluations");
   report.floor("near_miss_split_verdict", 0.10, "near_miss_accepted_somewhere");
   crate::fuzz::stage(cfg, &mut report, &known, 30000);
